@@ -721,19 +721,51 @@ def glue_ok(a, b):
     return False
 
 
-def join_tokens(toks, rnd=None, compact=0.0, ws=None, wordops=()):
-    """Joins tokens with single blanks (or `ws()` strings); with `compact` probability a safe boundary
-    gets no whitespace at all."""
+_GLUE_CACHE = {}
+
+
+def glue_safe(a, b, table=BUILTINS, sig=None):
+    """True if writing tokens a and b without whitespace still reads as the same two tokens under R-TOK (operators next to
+    operands, numbers next to words, ...); anything R-TOK leaves open counts as unsafe."""
+    if glue_ok(a, b):
+        return True
+    if sig is None:
+        sig = hash(frozenset(table.all_ops()))
+    key = (str(a), str(b), isinstance(a, FnName), sig)
+    r = _GLUE_CACHE.get(key)
+    if r is None:
+        try:
+            glued = rtok(str(a) + str(b), table)
+            spaced = rtok(str(a) + " " + str(b), table)
+            la = len(str(a).encode("utf-8"))
+            r = (len(glued) == 2 and len(spaced) == 2 and glued[0][2] == 0 and glued[0][3] == la and glued[1][2] == la and glued[1][3] == la + len(str(b).encode("utf-8"))
+                 and all(g[0] == s_[0] and g[1] == s_[1] for g, s_ in zip(glued, spaced)))
+        except (Abstain, LexError):
+            r = False
+        if len(_GLUE_CACHE) < 200000:
+            _GLUE_CACHE[key] = r
+    return r
+
+
+def join_tokens(toks, rnd=None, compact=0.0, ws=None, wordops=(), table=None):
+    """Joins tokens with single blanks (or `ws()` strings); with `compact` probability a boundary that R-TOK reads the same
+    without whitespace gets none at all (`-2++`, `a+b`, `x=[1]`). Callers that use registered operators pass their table
+    (without one, only delimiters / commas glue for them)."""
     out = []
+    if table is None and not wordops:
+        table = BUILTINS
+    sig = hash(frozenset(table.all_ops())) if table is not None else None
     for i, t in enumerate(toks):
         if i:
             a = toks[i - 1]
-            if a in wordops and t in (",", ";"):
-                # a word operator glued to `,` or `;` would be read as part of a longer word
-                out.append(ws() if ws else " ")
-                out.append(t)
-                continue
-            tight = glue_ok(a, t) and (isinstance(a, FnName) or t in (")", "]", "}", ",") or a in ("(", "[", "{")) if rnd is None else (glue_ok(a, t) and rnd.random() < compact)
+            if rnd is None:
+                tight = glue_ok(a, t) and (isinstance(a, FnName) or t in (")", "]", "}", ",") or a in ("(", "[", "{"))
+                if a in wordops and t in (",", ";"):
+                    tight = False
+            elif rnd.random() < compact:
+                tight = glue_safe(a, t, table, sig) if table is not None else (glue_ok(a, t) and not (a in wordops and t in (",", ";")))
+            else:
+                tight = False
             if not tight:
                 out.append(ws() if ws else " ")
         out.append(t)
